@@ -93,19 +93,26 @@ def bitLenAux : Nat → Nat → Nat
 /-- number of binary digits -/
 def bitLen (n : Nat) : Nat := bitLenAux (n + 1) n
 
-/-- The binary64 value nearest to `a / b` (ties to even); 53 significant bits, exponent range
-unbounded (the values that occur are far from the subnormal and overflow ranges). -/
-def roundQ (a b : Nat) : Dy :=
-  if a = 0 ∨ b = 0 then ⟨0, 1⟩ else
+/-- the power of two by which `a / b` is scaled so that its integer part has 53 bits:
+`2^52 ≤ a·2^k / b < 2^53` -/
+def roundShift (a b : Nat) : Int :=
   let k0 : Int := 53 - (bitLen a : Int) + (bitLen b : Int)
   let q0 := if k0 ≥ 0 then a * 2 ^ k0.toNat / b else a / (b * 2 ^ (-k0).toNat)
-  let k : Int := if q0 ≥ 2 ^ 53 then k0 - 1 else k0
+  if q0 ≥ 2 ^ 53 then k0 - 1 else k0
+
+/-- `a / b` rounded to a multiple of `2^(-k)`, ties to even -/
+def roundAt (a b : Nat) (k : Int) : Dy :=
   let num := if k ≥ 0 then a * 2 ^ k.toNat else a
   let den := if k ≥ 0 then b else b * 2 ^ (-k).toNat
   let q := num / den
   let r := num % den
   let q' := if 2 * r > den ∨ (2 * r = den ∧ q % 2 = 1) then q + 1 else q
   if k ≥ 0 then ⟨q', 2 ^ k.toNat⟩ else ⟨q' * 2 ^ (-k).toNat, 1⟩
+
+/-- The binary64 value nearest to `a / b` (ties to even); 53 significant bits, exponent range
+unbounded (the values that occur are far from the subnormal and overflow ranges). -/
+def roundQ (a b : Nat) : Dy :=
+  if a = 0 ∨ b = 0 then ⟨0, 1⟩ else roundAt a b (roundShift a b)
 
 def Dy.floor (x : Dy) : Nat := x.num / x.den
 
@@ -256,11 +263,9 @@ def barCharOf (c : Config) (s : State) : Str :=
   | some b => b
   | none => if s.max ≠ 0 then ['='] else c.emptyChar
 
-/-- `bar_offset`.  With a maximum: `floor(self._percent * bar_width)` in binary64; the `min` is
-never active in IEEE arithmetic (`percent ≤ 1.0`), it is kept so that `bar_width` below does not
-rest on a fact about rounding that is only sampled (see the harness assumptions). -/
+/-- `bar_offset`.  With a maximum: `floor(self._percent * bar_width)` in binary64. -/
 def barOffset (c : Config) (s : State) : Except Err Nat :=
-  if s.max ≠ 0 then .ok (min c.barWidth (s.percent.mulNat c.barWidth).floor)
+  if s.max ≠ 0 then .ok (s.percent.mulNat c.barWidth).floor
   else if c.barWidth = 0 then .error (.other "ZeroDivisionError")
   else match c.redrawFreq with
     | none =>
